@@ -218,6 +218,14 @@ class FakeEvent:
         return self.flag
 
     def wait(self, timeout=None):
+        if timeout is not None:
+            # a timed wait may expire whenever the flag is not set at the moment the thread is scheduled (cf. FakeQueue)
+            self.s.point(("wait_timed", self.name))
+            if not self.flag:
+                self.s.log("wait_timeout", self.name)
+                return False
+            self.s.log("wait", self.name)
+            return True
         self.s.point(("wait", self.name), lambda: self.flag)
         self.s.log("wait", self.name)
         return True
@@ -379,6 +387,11 @@ class FakePopen:
         return self.returncode
 
     def wait(self, timeout=None):
+        if timeout is not None and timeout <= 0:
+            # join(timeout=0) is a poll; a positive join timeout is taken to be long enough (it blocks like no timeout)
+            self.s.point(("join_poll", self.name))
+            self.s.log("join_poll", self.name, self.returncode)
+            return self.returncode
         self.s.point(("join_proc", self.name), lambda: self.returncode is not None)
         self.s.log("join_proc", self.name)
         return self.returncode
